@@ -113,6 +113,20 @@ class Ranger:
                 if not a.empty():
                     m = max(abs(a.lo()), abs(a.hi()))
                     r = IntervalSet([(0, m)])
+            elif called(t[1], 'Ord::clamp', 'impls::clamp', '::clamp') and len(t[2]) == 3:
+                # x.clamp(lo, hi) lies in [lo, hi] (it panics when lo > hi): bounded by the extremes of the two bound ranges
+                lo_r = self.term_range(body, t[2][1], pf, ty, depth + 1)
+                hi_r = self.term_range(body, t[2][2], pf, ty, depth + 1)
+                if not lo_r.empty() and not hi_r.empty():
+                    r = IntervalSet([(lo_r.lo(), max(hi_r.hi(), lo_r.lo()))])
+            elif called(t[1], 'Ord::max', 'cmp::max') and len(t[2]) == 2:
+                a, c = (self.term_range(body, x, pf, ty, depth + 1) for x in t[2])
+                if not a.empty() and not c.empty():
+                    r = IntervalSet([(max(a.lo(), c.lo()), max(a.hi(), c.hi()))])
+            elif called(t[1], 'Ord::min', 'cmp::min') and len(t[2]) == 2:
+                a, c = (self.term_range(body, x, pf, ty, depth + 1) for x in t[2])
+                if not a.empty() and not c.empty():
+                    r = IntervalSet([(min(a.lo(), c.lo()), min(a.hi(), c.hi()))])
         elif k == 'init' and t[1] <= body.argc and t[1] >= 1:
             pr = self.param_range(body, t[1])
             if pr is not None:
@@ -368,7 +382,7 @@ def table_index_sites(ctx, run, rule, cone, floor=None):
                     if not ok:
                         s['ok'] = False
                         s['wit'] = f'index {show(ix)} ranges over {r} but the table has {ln[1]} entries'
-                elif e[0] == 'call' and called(e[1], 'Index::index', 'IndexMut::index_mut') and len(e[2]) == 2:
+                elif e[0] == 'call' and (called(e[1], 'Index::index', 'IndexMut::index_mut') or canon(e[1]).endswith('::index')) and len(e[2]) == 2:
                     base = e[2][0]
                     n = table_len(b, e[5], base)
                     if n is None:
@@ -417,6 +431,8 @@ def table_len(body, term, base):
     t = deref_all(base)
     if t[0] == 'const' and isinstance(t[1], tuple):
         return len(t[1])
+    if t[0] == 'const' and isinstance(t[1], str) and not t[1].startswith('bits:') and 'str' in str(t[2] if len(t) > 2 else ''):
+        return len(t[1].encode())      # a string constant sliced by position
     # type of the indexed operand as written in the callee's generic arguments: <[u8; 128] as Index<..>>::index
     full = term['callee'].get('full') or ''
     m = re.match(r'^<\[[^;\]]+; (\d+)\] as ', full)
